@@ -35,6 +35,30 @@ type FCfg struct {
 	BaseCfg                                                                                                                 *Cfg
 }
 
+// Focused returns a copy of the mix with one family boosted: logs concentrate on one subsystem often enough to reach
+// its deeper states (several services owning manual VIPs, tokens linked to roles linked to policies, peerings with secrets …).
+func (c *FCfg) Focused(focus string) *FCfg {
+	out := *c
+	switch focus {
+	case "vip":
+		out.ManualVIP *= 9
+	case "acl":
+		out.ACL *= 4
+	case "peering":
+		out.Peering *= 5
+	case "intention":
+		out.Intention *= 5
+	case "ca":
+		out.CA *= 5
+	case "catalog":
+		out.Base *= 3
+	}
+	return &out
+}
+
+// Focuses lists the focus names ("" = the plain mix).
+var Focuses = []string{"", "", "vip", "vip", "acl", "peering", "intention", "ca", "catalog"}
+
 // DefaultFCfg is the mix used by C01 and C02.
 func DefaultFCfg() *FCfg {
 	return &FCfg{
@@ -177,6 +201,18 @@ func (w *FWorld) Prelude(t *rapid.T) []*FCmd {
 	if chance(t, "preixn", 65) {
 		add(structs.SystemMetadataIntentionFormatKey, structs.SystemMetadataIntentionFormatConfigValue)
 	}
+	if chance(t, "preacl", 60) { // ACL initialisation: builtin policies
+		var ps structs.ACLPolicies
+		for _, id := range []string{structs.ACLPolicyGlobalManagementID, structs.ACLPolicyGlobalReadOnlyID} {
+			bp := structs.ACLBuiltinPolicies[id]
+			bp.EnterpriseMeta = defaultEM
+			bp.SetHash(true)
+			ps = append(ps, &bp)
+		}
+		for _, p := range ps {
+			out = append(out, NewFCmd("acl/policy-set", "acl", structs.ACLPolicySetRequestType, w.NextIdx(t), &structs.ACLPolicyBatchSetRequest{Policies: structs.ACLPolicies{p}}, "policy-set builtin "+p.Name))
+		}
+	}
 	return out
 }
 
@@ -257,6 +293,9 @@ func (w *FWorld) drawPolicySet(t *rapid.T) *FCmd {
 			if chance(t, "polrename", 25) {
 				p.Name = pick(t, "polname", aclPolicyNames)
 			}
+			if _, builtin := structs.ACLBuiltinPolicies[e.ID]; builtin { // the endpoint refuses rule/datacenter changes of builtin policies
+				p.Rules = e.Rules
+			}
 		default:
 			id, ok := w.mint("b0a")
 			if !ok {
@@ -270,7 +309,7 @@ func (w *FWorld) drawPolicySet(t *rapid.T) *FCmd {
 		if chance(t, "poldesc", 30) {
 			p.Description = pick(t, "poldescv", []string{"d1", "d2"})
 		}
-		if chance(t, "poldcs", 20) {
+		if _, builtin := structs.ACLBuiltinPolicies[p.ID]; !builtin && chance(t, "poldcs", 20) {
 			p.Datacenters = []string{"dc1"}
 		}
 		p.EnterpriseMeta = defaultEM
@@ -299,7 +338,13 @@ func (w *FWorld) drawPolicyDelete(t *rapid.T) *FCmd {
 		if len(existing) > 0 && chance(t, "poldellive", 85) {
 			id = pick(t, "poldel", existing).ID
 		}
+		if _, builtin := structs.ACLBuiltinPolicies[id]; builtin {
+			continue // the endpoint refuses to delete builtin policies
+		}
 		ids = append(ids, id)
+	}
+	if len(ids) == 0 {
+		return nil
 	}
 	c := NewFCmd("acl/policy-delete", "acl", structs.ACLPolicyDeleteRequestType, w.NextIdx(t), &structs.ACLPolicyBatchDeleteRequest{PolicyIDs: ids}, "policy-delete "+shortAll(ids))
 	c.RMW, c.Multi = true, true // tokens and roles linking the policy are read through it
@@ -320,7 +365,7 @@ func (w *FWorld) drawPolicyLinks(t *rapid.T) []string {
 	n := rapid.IntRange(0, 2).Draw(t, "nlinks")
 	for i := 0; i < n; i++ {
 		id := ghostID // a link to a policy deleted between the endpoint's check and the append
-		if len(existing) > 0 && chance(t, "linklive", 88) {
+		if len(existing) > 0 && chance(t, "linklive", 94) {
 			id = pick(t, "link", existing).ID
 		}
 		dup := false
@@ -437,7 +482,7 @@ func (w *FWorld) drawTokenSet(t *rapid.T) *FCmd {
 			}
 			if rs := w.roles(); chance(t, "tokrole", 30) {
 				id := ghostID
-				if len(rs) > 0 && chance(t, "tokrolelive", 85) {
+				if len(rs) > 0 && chance(t, "tokrolelive", 92) {
 					id = pick(t, "tokrolepick", rs).ID
 				}
 				tok.Roles = append(tok.Roles, structs.ACLTokenRoleLink{ID: id})
@@ -458,7 +503,11 @@ func (w *FWorld) drawTokenSet(t *rapid.T) *FCmd {
 	if len(opts.Tokens) == 0 {
 		return nil
 	}
-	switch rapid.IntRange(0, 9).Draw(t, "tokmode") {
+	mode := rapid.IntRange(0, 9).Draw(t, "tokmode")
+	if mode == 0 && len(w.methods()) == 0 && chance(t, "loginneedsmethod", 80) {
+		mode = 9
+	}
+	switch mode {
 	case 0: // login: token bound to an auth method
 		ms := w.methods()
 		name := "am-ghost"
@@ -472,8 +521,18 @@ func (w *FWorld) drawTokenSet(t *rapid.T) *FCmd {
 			}
 		}
 		opts.AllowMissingLinks, opts.ProhibitUnprivileged = true, true
-	case 1: // replication batch
-		opts.AllowMissingLinks, opts.FromReplication = true, true
+	case 1: // replication batch (the replicator only ever sees global tokens)
+		allGlobal := true
+		for _, tok := range opts.Tokens {
+			if fresh[tok.AccessorID] {
+				tok.Local = false
+				tok.SetHash(true)
+			}
+			allGlobal = allGlobal && !tok.Local
+		}
+		if allGlobal {
+			opts.AllowMissingLinks, opts.FromReplication = true, true
+		}
 	case 2:
 		opts.CAS = true
 		for _, tok := range opts.Tokens {
@@ -500,7 +559,13 @@ func (w *FWorld) drawTokenDelete(t *rapid.T) *FCmd {
 		if len(existing) > 0 && chance(t, "tokdellive", 85) {
 			id = pick(t, "tokdel", existing).AccessorID
 		}
+		if id == acl.AnonymousTokenID {
+			continue // refused by the endpoint
+		}
 		ids = append(ids, id)
+	}
+	if len(ids) == 0 {
+		return nil
 	}
 	c := NewFCmd("acl/token-delete", "acl", structs.ACLTokenDeleteRequestType, w.NextIdx(t), &structs.ACLTokenBatchDeleteRequest{TokenIDs: ids}, "token-delete "+shortAll(ids))
 	c.RMW, c.Multi = true, len(ids) > 1
@@ -553,6 +618,9 @@ func (w *FWorld) drawAuthMethodDelete(t *rapid.T) *FCmd {
 func (w *FWorld) drawBindingRuleSet(t *rapid.T) *FCmd {
 	existing := w.rules()
 	ms := w.methods()
+	if len(ms) == 0 && chance(t, "brneedsmethod", 75) {
+		return w.drawAuthMethodSet(t)
+	}
 	method := pick(t, "brmethod", aclMethodNames)
 	if len(ms) > 0 && chance(t, "brmethodlive", 85) {
 		method = pick(t, "brmethodpick", ms).Name
@@ -953,6 +1021,9 @@ func (w *FWorld) DrawPeering(t *rapid.T) *FCmd {
 	case k <= 4: // GenerateToken (acceptor side): new peering or refreshed establishment secret
 		var p *pbpeering.Peering
 		if cur != nil {
+			if cur.ShouldDial() || cur.State == pbpeering.PeeringState_DELETING {
+				return nil // GenerateToken refuses a peer name already used as dialer (validatePeer) or being deleted
+			}
 			p = clonePeering(cur)
 		} else {
 			id, ok := w.mint("2a0")
@@ -974,6 +1045,9 @@ func (w *FWorld) DrawPeering(t *rapid.T) *FCmd {
 	case k <= 7: // Establish (dialer side), first write without state, second with secret
 		id := ""
 		if cur != nil {
+			if !cur.ShouldDial() || cur.State == pbpeering.PeeringState_DELETING {
+				return nil // Establish refuses a peer name already used as acceptor (validatePeer) or being deleted
+			}
 			id = cur.ID
 		} else if nid, ok := w.mint("2a0"); ok {
 			id = nid
@@ -1008,6 +1082,9 @@ func (w *FWorld) DrawPeering(t *rapid.T) *FCmd {
 	case k == 11: // promote pending secret when the dialer opens the stream
 		if cur == nil {
 			return nil
+		}
+		if cur.ShouldDial() {
+			return nil // only the accepting side promotes
 		}
 		sec, _ := w.Store.PeeringSecretsRead(nil, cur.ID)
 		pending := sec.GetStream().GetPendingSecretID()
@@ -1070,44 +1147,104 @@ func clonePeering(p *pbpeering.Peering) *pbpeering.Peering {
 var manualIPs = []string{"10.77.0.1", "10.77.0.2", "10.77.0.3"}
 
 // DrawManualVIP draws Internal.AssignManualServiceVIPs' raft entry: the IP list is the deduplicated request list in
-// the (map) order the leader happened to produce — here a drawn permutation.
+// the (map) order the leader happened to produce — here a drawn permutation. The generator aims at the interesting
+// pre-states: it first makes services own a virtual-IP row (sidecar registrations), hands out manual IPs, and then
+// reassigns IPs held by OTHER services (one command modifying several rows).
 func (w *FWorld) DrawManualVIP(t *rapid.T) *FCmd {
-	var withVIP []string
+	holders := map[string][]string{} // service with a VIP row -> its manual IPs
+	var withVIP, without []string
 	for _, s := range ServiceNames {
 		if v, _ := w.Store.ServiceManualVIPs(structs.PeeredServiceName{ServiceName: structs.NewServiceName(s, nil)}); v != nil {
 			withVIP = append(withVIP, s)
+			holders[s] = v.ManualIPs
+		} else {
+			without = append(without, s)
+		}
+	}
+	if len(without) > 0 && chance(t, "vipseed", 30+25*len(without)/len(ServiceNames)*2) {
+		if c := w.drawVIPSeed(t, pick(t, "vipseedsvc", without)); c != nil {
+			return c
 		}
 	}
 	svc := pick(t, "vipsvc", ServiceNames)
-	if len(withVIP) > 0 && chance(t, "vipsvclive", 85) {
+	if len(withVIP) > 0 && chance(t, "vipsvclive", 90) {
 		svc = pick(t, "vipsvcpick", withVIP)
 	}
-	perm := rapid.Permutation(manualIPs).Draw(t, "vipperm")
-	n := pick(t, "nvips", []int{0, 1, 1, 2, 2, 2, 3, 3})
-	ips := append([]string{}, perm[:n]...)
-	// aim at the reassignment: IPs currently held by OTHER services
-	var moved int
-	for _, o := range withVIP {
+	var ips []string
+	switch mode := rapid.IntRange(0, 9).Draw(t, "vipmode"); {
+	case mode <= 3: // steal: every IP currently held by the other services (plus maybe a free one)
+		var held []string
+		for _, o := range withVIP {
+			if o != svc {
+				held = append(held, holders[o]...)
+			}
+		}
+		if len(held) == 0 {
+			held = []string{pick(t, "vipfree", manualIPs)}
+		}
+		ips = rapid.Permutation(held).Draw(t, "vipstealperm")
+		if len(ips) > 1 && chance(t, "vipstealpart", 25) {
+			ips = ips[:len(ips)-1]
+		}
+	case mode <= 6: // hand out one IP nobody holds (so that several services hold one each)
+		used := map[string]bool{}
+		for _, h := range holders {
+			for _, ip := range h {
+				used[ip] = true
+			}
+		}
+		for _, ip := range manualIPs {
+			if !used[ip] {
+				ips = []string{ip}
+				break
+			}
+		}
+		if ips == nil {
+			ips = []string{pick(t, "vipany", manualIPs)}
+		}
+	default:
+		perm := rapid.Permutation(manualIPs).Draw(t, "vipperm")
+		ips = append([]string{}, perm[:pick(t, "nvips", []int{0, 1, 2, 3})]...)
+	}
+	moved := 0
+	for o, h := range holders {
 		if o == svc {
 			continue
 		}
-		v, _ := w.Store.ServiceManualVIPs(structs.PeeredServiceName{ServiceName: structs.NewServiceName(o, nil)})
+		hit := false
 		for _, ip := range ips {
-			for _, h := range v.ManualIPs {
-				if h == ip {
-					moved++
-				}
+			for _, x := range h {
+				hit = hit || x == ip
 			}
+		}
+		if hit {
+			moved++
 		}
 	}
 	psn := structs.PeeredServiceName{ServiceName: structs.NewServiceName(svc, &defaultEM)}
-	cur, _ := w.Store.ServiceManualVIPs(psn)
-	if cur != nil && sameSet(cur.ManualIPs, ips) {
+	if cur, _ := w.Store.ServiceManualVIPs(psn); cur != nil && sameSet(cur.ManualIPs, ips) {
 		return nil // the endpoint skips the raft apply when nothing would change
 	}
 	req := state.ServiceVirtualIP{Service: psn, ManualIPs: ips}
-	c := NewFCmd("vip/assign-manual", "vip", structs.UpdateVirtualIPRequestType, w.NextIdx(t), req, fmt.Sprintf("manual-vips %s <- %v (moves %d)", svc, ips, moved))
+	c := NewFCmd("vip/assign-manual", "vip", structs.UpdateVirtualIPRequestType, w.NextIdx(t), req, fmt.Sprintf("manual-vips %s <- %v (modifies %d other services)", svc, ips, moved))
 	c.RMW, c.Multi = true, moved >= 1
+	return c
+}
+
+// drawVIPSeed makes a service own a virtual IP: enables the feature flag if needed, else registers a sidecar proxy.
+func (w *FWorld) drawVIPSeed(t *rapid.T, svc string) *FCmd {
+	if _, e, _ := w.Store.SystemMetadataGet(nil, structs.SystemMetadataVirtualIPsEnabled); e == nil || e.Value == "" {
+		req := &structs.SystemMetadataRequest{Datacenter: fsmDC, Op: structs.SystemMetadataUpsert, Entry: &structs.SystemMetadataEntry{Key: structs.SystemMetadataVirtualIPsEnabled, Value: "true"}}
+		return NewFCmd("sysmeta/upsert", "sysmeta", structs.SystemMetadataRequestType, w.NextIdx(t), req, "sysmeta virtual-ips=true")
+	}
+	node := pick(t, "vipseednode", Nodes)
+	reg := &structs.RegisterRequest{Datacenter: fsmDC, Node: node, ID: NodeIDs[node], Address: "10.0.0." + node[1:], EnterpriseMeta: defaultEM,
+		Service: &structs.NodeService{Kind: structs.ServiceKindConnectProxy, Service: svc + "-proxy", ID: svc + "-proxy-1", Port: 20000 + len(svc),
+			Proxy: structs.ConnectProxyConfig{DestinationServiceName: svc}, Weights: &structs.Weights{Passing: 1, Warning: 1}, EnterpriseMeta: defaultEM}}
+	c, err := FromOp(NewRegister(w.NextIdx(t), reg))
+	if err != nil {
+		return nil
+	}
 	return c
 }
 
